@@ -56,6 +56,9 @@ def extra_cases():
                     for alt in (False, True):
                         yield {'custom': custom, 'conform': conform, 'provided': provided, 'hooks': list(hooks), 'alt': alt,
                                'sub': True, 'reg': None}
+                        # a sub-interface that adds an interface method of its own (a new generated class) still inherits __adapt__
+                        yield {'custom': custom, 'conform': conform, 'provided': provided, 'hooks': list(hooks), 'alt': alt,
+                               'sub': 'method', 'reg': None}
                         yield {'custom': custom, 'conform': conform, 'provided': provided, 'hooks': list(hooks), 'alt': alt,
                                'sub': False, 'reg': None, 'falsy_obj': True}
                         for regpos in (0, len(hooks)):
@@ -80,7 +83,7 @@ def generate(seed, mode):
     for _ in range(n):
         nh = o.choice([0, 1, 1, 2, 2, 3, 4])
         c = {'custom': o.choice(CUSTOMS), 'conform': o.choice(CONFORMS), 'provided': o.random() < 0.3,
-             'hooks': [o.choice(HOOKS) for _ in range(nh)], 'alt': o.random() < 0.5, 'sub': o.random() < 0.3, 'reg': None,
+             'hooks': [o.choice(HOOKS) for _ in range(nh)], 'alt': o.random() < 0.5, 'sub': (lambda x: 'method' if x < 0.12 else x < 0.3)(o.random()), 'reg': None,
              'falsy_obj': o.random() < 0.25}
         if o.random() < 0.25:
             c['reg'] = [o.randint(0, nh), o.choice(['hit', 'miss', 'factory_none'])]
@@ -145,7 +148,13 @@ def execute(program, ctx, mode):
         class J(I):
             pass
         J.__name__ = 'JA_' + custom
-        ifaces[custom] = (I, J)
+
+        class K(I):
+            @interfacemethod
+            def helper(self):
+                return 'helper'
+        K.__name__ = 'KA_' + custom
+        ifaces[custom] = (I, J, K)
         return ifaces[custom]
 
     def mk_obj(conform, provided, I, falsy=False):
@@ -352,8 +361,8 @@ def execute(program, ctx, mode):
         for step, case in enumerate(program['ops']):
             ctx.step = step
             ctx.nops += 1
-            I0, J0 = mk_iface(case['custom'])
-            I = J0 if case.get('sub') else I0
+            I0, J0, K0 = mk_iface(case['custom'])
+            I = K0 if case.get('sub') == 'method' else (J0 if case.get('sub') else I0)
             hook_vals.clear()
             ob = mk_obj(case['conform'], case['provided'], I, case.get('falsy_obj', False))
             hooks = [mk_hook(k, i, None) for i, k in enumerate(case['hooks'])]
